@@ -132,6 +132,8 @@ func (d *unmarshalTextDecoder) Decode(ctx *RuntimeContext, cursor, depth int64, 
 	if s, ok := unquoteBytes(src); ok {
 		src = s
 	}
+	// the text is a window of the input copy: an UnmarshalText that appends to it must not reach the bytes behind it
+	src = src[:len(src):len(src)]
 	v := *(*interface{})(unsafe.Pointer(&emptyInterface{
 		typ: d.typ,
 		ptr: *(*unsafe.Pointer)(unsafe.Pointer(&p)),
